@@ -218,8 +218,44 @@ func (g *genState) predictData(op Op, tok []byte) []Emission {
 
 // ------------------------------------------------------------------ the generator
 
+// floodCase: a history that is long in one respect only. C08: far more Interests than the PIT reaper
+// may handle per pass fall due at the same instant (the statement bounds the removal of every entry,
+// not of the first hundred; seeded C01-r9-1 capped the expirations per 100 ms tick). C09: dozens of
+// /localhost Interests from a non-local face in a row, then a /localhost Data from there (the
+// statement says "ever"; seeded C09-r9-1 stopped dropping after 32 violations in 10 s).
+func floodCase(t *rapid.T, p Profile) Case {
+	var c Case
+	c.Cfg.Faces = []FaceSpec{{Local: true}, {Local: false}, {Local: true}}
+	c.Cfg.Algo = rapid.SampledFrom([]string{"nametree", "hashtable"}).Draw(t, "floodAlgo")
+	c.Cfg.M = 2
+	c.Cfg.DnlMs = 100
+	c.Cfg.CsCap = 8
+	if p.Name == "C09" {
+		c.Ops = append(c.Ops, Op{K: "fibins", N: "/localhost", F: 1, Cost: 1}, Op{K: "fibins", N: "/", F: 3, Cost: 1})
+		n := rapid.SampledFrom([]int{31, 32, 33, 40, 70}).Draw(t, "floodN")
+		for i := 0; i < n; i++ {
+			c.Ops = append(c.Ops, Op{K: "I", F: 2, N: fmt.Sprintf("/localhost/a/x%d", i), HasNonce: true, Nonce: uint32(0x700000 + i), Life: 1000})
+		}
+		c.Ops = append(c.Ops, Op{K: "I", F: 1, N: "/localhost/b", CBP: true, HasNonce: true, Nonce: 0x7fffff, Life: 1000})
+		c.Ops = append(c.Ops, Op{K: "D", F: 2, N: "/localhost/b/c", TokKind: "none", Var: 1})
+		return c
+	}
+	c.Ops = append(c.Ops, Op{K: "fibins", N: "/a", F: 2, Cost: 1})
+	n := rapid.SampledFrom([]int{150, 1200, 1500}).Draw(t, "floodN")
+	for i := 0; i < n; i++ {
+		c.Ops = append(c.Ops, Op{K: "I", F: 1, N: fmt.Sprintf("/a/x%d", i), HasNonce: true, Nonce: uint32(0x700000 + i), Life: 100})
+	}
+	// just past "shortly after" the lifetime, then something harmless so that the state is looked at
+	c.Ops = append(c.Ops, Op{K: "adv", D: int64(100*ms + slack + 60*ms)}, Op{K: "adv", D: int64(1 * ms)},
+		Op{K: "I", F: 3, N: "/a/last", HasNonce: true, Nonce: 0x7ffffe, Life: 100}, Op{K: "adv", D: int64(3000 * ms)})
+	return c
+}
+
 func genCaseFor(p Profile) func(t *rapid.T) Case {
 	return func(t *rapid.T) Case {
+		if !p.Full && (p.Name == "C08" || p.Name == "C09") && rapid.IntRange(0, 149).Draw(t, "flood") == 0 {
+			return floodCase(t, p)
+		}
 		var c Case
 		nf := rapid.IntRange(2, 6).Draw(t, "nfaces")
 		for i := 0; i < nf; i++ {
